@@ -14,10 +14,14 @@ MUTANTS = {"shallow_copy": "WrapIsolates", "shared_accumulator": "ResultIsFuncti
 
 
 def paths_of(x, prefix=()):
+    """paths to every position whose PARENT is mutable (dict/list), also below tuples"""
     if isinstance(x, dict):
         for k in x:
             yield prefix + (k,)
             yield from paths_of(x[k], prefix + (k,))
+    elif isinstance(x, tuple):
+        for i in range(len(x)):
+            yield from paths_of(x[i], prefix + (i,))
     elif isinstance(x, list):
         for i in range(len(x)):
             yield prefix + (i,)
@@ -33,13 +37,14 @@ def set_at(x, p, v):
 def wrap_isolation(run):
     signing = lib.cct("signing")
     from ..twins import twin_canon
-    base = {"a": 1, "l": [1, {"m": [2, {"n": {"o": [3]}}]}], "d": {"e": {"f": {"g": "h"}}}, "s": "str"}
+    base = {"a": 1, "l": [1, {"m": [2, {"n": {"o": [3]}}]}], "d": {"e": {"f": {"g": "h"}}}, "s": "str",
+            "t": (1, [2, {"x": 3}], ({"y": [4]},), "z"), "lt": [(5, [6])]}      # tuples are a supported (JSON-serializable) payload type
     n = 0
     for p in paths_of(base):
         for direction in ("original->wrapped", "wrapped->original"):
             orig = copy.deepcopy(base)
             before = twin_canon(orig)
-            env = signing.wrap_as_signable(orig)
+            env = signing.wrap_as_signable(orig if n % 3 else orig["t"] if p and p[0] == "t" and False else orig)
             n += 1
             if twin_canon(orig) != before:
                 run.violation("wrap_as_signable modified its argument", {"kind": "wrap", "path": repr(p)})
